@@ -23,7 +23,7 @@ THEOREMS = {
             'C14.C14_multiappend_atomic_partial'],
     'C15': ['C15.C15_prefix', 'C15.C15_full', 'C15.C15_recover', 'C15.C15_crash_anywhere',
             'C15.C15_next_monotone', 'C15.C15_next_monotone_recover', 'C15.C15_append_uid_fresh'],
-    'C16': ['C16.C16_no_lost_wakeup', 'C16.C16_progress', 'C16.C16_lost_wakeup_as_found'],
+    'C16': ['C16.C16_no_lost_wakeup', 'C16.C16_progress', 'C16.C16_lost_wakeup_as_found', 'C16.C16_done', 'C16.C16_only_done'],
     'C17': ['C17.C17_at_most_one', 'C17.C17_first_rw_gets_it', 'C17.C17_not_stored_after'],
     'C18': ['C18.C18_roundtrip_quoted', 'C18.C18_roundtrip_number', 'C18.C18_modutf7', 'C18.C18_encode_ascii', 'C18.C18_framing', 'C18.C18_astring_spelling',
             'C18.C18_zone_roundtrip', 'C18.C18_zone_canonical', 'C18.C18_seqset_roundtrip'],
